@@ -278,6 +278,25 @@ fn worker(prop: &str, ctx: WorkerCtx) {
             }
           }
         }
+        // cause attribution by intervention for wasm-vs-reference differences: recompile with one
+        // loop sub-pass disabled (hook); if the emitted wasm then agrees, that sub-pass is the cause
+        if symptom.starts_with("wasm-differs") {
+          use samlang_optimization::verif as hook;
+          let mut attributed = None;
+          for (mask, name) in [(hook::LOOP_INDUCTION_VARIABLE_ELIMINATION, "loop-induction-variable-elimination"), (hook::LOOP_ALGEBRAIC_OPTIMIZATION, "loop-algebraic-optimization")] {
+            hook::set_disabled_loop_subpasses(mask);
+            let o2 = diffexec::run_all_but_ts(&case.user, &case.entry, &lim);
+            hook::set_disabled_loop_subpasses(0);
+            if o2.wasm_trace.is_some() && diffexec::judge_c01(&o2).is_none() {
+              attributed = Some(name);
+              break;
+            }
+          }
+          if let Some(name) = attributed {
+            fails.push(json!({"sig": format!("wasm-differs:caused-by:{name}"), "what": format!("{what} (agrees once the {name} sub-pass is disabled)"), "replay": diffexec::render_project(&case.user)}));
+            continue;
+          }
+        }
         let count = seen.entry(symptom.clone()).or_insert(0);
         *count += 1;
         let location_only = !(symptom.starts_with("wasm-differs") || symptom.starts_with("ts-vs-wasm") || symptom.starts_with("wasm-fault") || symptom == "wasm-no-arm-matched" || symptom.starts_with("ts-fault"));
